@@ -26,6 +26,51 @@ def h12(s):
     return hashlib.sha256(s.encode()).hexdigest()[:12]
 
 
+def h64(s):
+    return int.from_bytes(hashlib.blake2b(s.encode(), digest_size=8).digest(), 'little')
+
+
+# Signatures of exercised lines are kept compactly: one 64-bit hash per distinct line signature plus a bit mask of the
+# properties that line exercised non-trivially, in a binary side file of the job (sigs.bin); result.json stays small.
+SIG_CAP = 5000000        # per property, a check stops counting distinct signatures beyond this (evidence says so)
+
+
+def write_sigs(path, table):
+    from array import array
+    hs = array('Q', table.keys())
+    ms = array('I', table.values())
+    with open(path, 'wb') as f:
+        f.write(len(hs).to_bytes(8, 'little'))
+        hs.tofile(f)
+        ms.tofile(f)
+
+
+def read_sigs(path):
+    from array import array
+    with open(path, 'rb') as f:
+        n = int.from_bytes(f.read(8), 'little')
+        hs = array('Q')
+        hs.fromfile(f, n)
+        ms = array('I')
+        ms.fromfile(f, n)
+    return hs, ms
+
+
+def sigs_of(r, prop):
+    """Iterable of hashable signatures of the lines of result r that exercised prop."""
+    out = list(r.get('sigs', {}).get(prop, []))
+    files = list(r.get('sigfiles', []))
+    if r.get('sigfile'):
+        files.append(r['sigfile'])
+    if prop in P.PROPS:
+        bit = 1 << P.PROPS.index(prop)
+        for f in files:
+            if os.path.exists(f):
+                hs, ms = read_sigs(f)
+                out.extend(h for h, m in zip(hs, ms) if m & bit)
+    return out
+
+
 def _run_shard(jobdir, idx, lines, exe, fmode, cfgname, san, keep, l2=False):
     sdir = os.path.join(jobdir, 'shard%d' % idx)
     os.makedirs(sdir, exist_ok=True)
@@ -57,8 +102,13 @@ def _run_shard(jobdir, idx, lines, exe, fmode, cfgname, san, keep, l2=False):
         stim_by_id[parts[1]] = ln.strip()
     for v in violations:
         v['stimulus'] = stim_by_id.get(v.get('id'))
+    table = {}
+    for pi, p in enumerate(P.PROPS):
+        for sg in sigs.get(p, ()):
+            h = h64(sg)
+            table[h] = table.get(h, 0) | (1 << pi)
     res = dict(lines=end, ops=ops, restarts=restarts, skipped=skipped, sample=sample,
-               sigs={p: sorted(h12(s) for s in sigs[p]) for p in sigs if sigs[p]},
+               sigtable=table,
                nlines=nlines, violations=violations, t_driver=t1 - t0, t_tlc=t2 - t1, l2_calls=l2_calls, l2_drift=l2_drift[:20],
                l2_drift_n=len(l2_drift))
     if not keep and not violations:
@@ -115,7 +165,7 @@ def run_job(mc, drv, fmode=0, max_stims=None, seed=0, shard_size=None, keep=Fals
     else:
         st = P.gen_stimuli(mc)
     d = P.build_driver(drv)
-    key = P.sha('job', st['key'], d['key'], fmode, max_stims, seed, l2, P.spec_sha(), P.file_sha(os.path.join(P.ROOT, 'lib', 'pipeline.py')))
+    key = P.sha('job3', st['key'], d['key'], fmode, max_stims, seed, l2, P.spec_sha(), P.file_sha(os.path.join(P.ROOT, 'lib', 'pipeline.py')))
     jobdir = os.path.join(P.CACHE, 'job', key)
     resf = os.path.join(jobdir, 'result.json')
     with P.Lock(jobdir):
@@ -158,7 +208,8 @@ def run_job(mc, drv, fmode=0, max_stims=None, seed=0, shard_size=None, keep=Fals
         shards = [lines[i:i + per] for i in range(0, len(lines), per)]
         futs = [pool().submit(_run_shard, jobdir, i, sh, d['exe'], fmode, d['name'], d['conf']['san'], keep, l2)
                 for i, sh in enumerate(shards)]
-        merged = dict(lines=0, ops=0, restarts=0, skipped=0, sample=[], sigs={}, nlines={}, violations=[],
+        table = {}
+        merged = dict(lines=0, ops=0, restarts=0, skipped=0, sample=[], nlines={}, violations=[],
                       t_driver=0.0, t_tlc=0.0, l2_calls=0, l2_drift_n=0, l2_drift=[])
         for f in futs:
             r = f.result()
@@ -167,12 +218,17 @@ def run_job(mc, drv, fmode=0, max_stims=None, seed=0, shard_size=None, keep=Fals
             merged['l2_drift'] += r['l2_drift'][:5]
             if len(merged['sample']) < 4:
                 merged['sample'] += r['sample'][:2]
-            for p, s in r['sigs'].items():
-                merged['sigs'].setdefault(p, set()).update(s)
+            for h, m in r['sigtable'].items():
+                table[h] = table.get(h, 0) | m
+            r['sigtable'] = None
             for p, n in r['nlines'].items():
                 merged['nlines'][p] = merged['nlines'].get(p, 0) + n
             merged['violations'] += r['violations']
-        merged['sigs'] = {p: sorted(s) for p, s in merged['sigs'].items()}
+        sigfile = os.path.join(jobdir, 'sigs.bin')
+        write_sigs(sigfile, table)
+        merged['sigfile'] = sigfile
+        merged['nsigs'] = {p: sum(1 for m in table.values() if m & (1 << pi)) for pi, p in enumerate(P.PROPS)}
+        table = None
         merged.update(stims=len(lines), stims_total=total, mc=dict(generated=st['generated'], distinct=st['distinct'],
                       n=st['n'], consts=st.get('consts')), drv=d['name'], drvconf=d['conf'], fmode=fmode,
                       wall=time.time() - t0, key=key, label=label or '')
